@@ -69,6 +69,39 @@ func c11mWrite(d *leveldb.DB, b *leveldb.Batch, wo *opt.WriteOptions) error {
 	return nil
 }
 
+// direct (unbatched) writes to the store: applied at once, outside any transaction - the wrapper is not supposed to make
+// any, so these are only reached by code that bypasses the transaction's batch
+func c11mDelete(d *leveldb.DB, key []byte, wo *opt.WriteOptions) error {
+	var out []c11KV
+	for _, e := range c11Committed {
+		if !bytes.Equal(e.k, key) {
+			out = append(out, e)
+		}
+	}
+	c11Committed = out
+	return nil
+}
+
+func c11mPut(d *leveldb.DB, key, value []byte, wo *opt.WriteOptions) error {
+	if err := c11mDelete(d, key, wo); err != nil {
+		return err
+	}
+	var out []c11KV
+	placed := false
+	for _, e := range c11Committed {
+		if bytes.Compare(e.k, key) > 0 && !placed {
+			out = append(out, c11KV{c11Clone(key), c11Clone(value)})
+			placed = true
+		}
+		out = append(out, e)
+	}
+	if !placed {
+		out = append(out, c11KV{c11Clone(key), c11Clone(value)})
+	}
+	c11Committed = out
+	return nil
+}
+
 func c11mGet(d *leveldb.DB, key []byte, ro *opt.ReadOptions) ([]byte, error) {
 	for _, e := range c11Committed {
 		if bytes.Equal(e.k, key) {
